@@ -49,14 +49,29 @@ func backwardSlice(fn *ssa.Function, seeds []ssa.Value, seedInstrs []ssa.Instruc
 			if a == b {
 				continue
 			}
-			// B reachable from A?
-			reach, _ := PathQuery{}.Reaches(a, len(a.Instrs), func(in ssa.Instruction) bool { return in.Block() == b })
-			if !reach {
-				continue
+			// classic definition: b is control dependent on the branch at a iff b post-dominates one successor of a
+			// (every path from that successor to an exit passes b) but not all of them.
+			inB := func(in ssa.Instruction) bool { return in.Block() == b }
+			pd := make([]bool, len(a.Succs))
+			for i, sb := range a.Succs {
+				if sb == b {
+					pd[i] = true
+					continue
+				}
+				// can an exit be reached from the successor without passing b? (a block that cannot reach an exit at all does not count)
+				toExit, _ := PathQuery{Avoid: inB}.Reaches(sb, 0, IsExit)
+				reachB, _ := PathQuery{}.Reaches(sb, 0, inB)
+				pd[i] = !toExit && reachB
 			}
-			// some path from A to an exit avoiding B?
-			avoid, _ := PathQuery{Avoid: func(in ssa.Instruction) bool { return in.Block() == b }}.Reaches(a, len(a.Instrs), IsExit)
-			if avoid {
+			some, all := false, true
+			for _, x := range pd {
+				if x {
+					some = true
+				} else {
+					all = false
+				}
+			}
+			if some && !all {
 				out = append(out, iff)
 			}
 		}
@@ -211,3 +226,57 @@ func (s *Slice) HasFieldLoad(key string) bool {
 
 // HasValue reports whether v is in the slice.
 func (s *Slice) HasValue(v ssa.Value) bool { return s.Values[v] }
+
+// ControlConds returns the conditions of the branches on which the execution of
+// instruction in is (transitively) control dependent — nothing about its operands.
+func ControlConds(in ssa.Instruction) []ssa.Value {
+	fn := in.Parent()
+	sl := backwardSlice(fn, nil, nil, true)
+	_ = sl
+	seenB := map[*ssa.BasicBlock]bool{}
+	var out []ssa.Value
+	var rec func(b *ssa.BasicBlock)
+	rec = func(b *ssa.BasicBlock) {
+		if seenB[b] {
+			return
+		}
+		seenB[b] = true
+		for _, iff := range controlDepsOf(fn, b) {
+			out = append(out, iff.Cond)
+			rec(iff.Block())
+		}
+	}
+	rec(in.Block())
+	return out
+}
+
+func controlDepsOf(fn *ssa.Function, b *ssa.BasicBlock) []*ssa.If {
+	var out []*ssa.If
+	for _, iff := range Ifs(fn) {
+		a := iff.Block()
+		if a == b {
+			continue
+		}
+		inB := func(in ssa.Instruction) bool { return in.Block() == b }
+		some, all := false, true
+		for _, sb := range a.Succs {
+			pd := false
+			if sb == b {
+				pd = true
+			} else {
+				toExit, _ := PathQuery{Avoid: inB}.Reaches(sb, 0, IsExit)
+				reachB, _ := PathQuery{}.Reaches(sb, 0, inB)
+				pd = !toExit && reachB
+			}
+			if pd {
+				some = true
+			} else {
+				all = false
+			}
+		}
+		if some && !all {
+			out = append(out, iff)
+		}
+	}
+	return out
+}
